@@ -9,6 +9,7 @@
  *   s3  file client: KSI_NetworkClient_sendSignRequest (prepareAggregationRequest -> enclose -> serialize -> handle) with
  *       the k-th allocation failing on a groomed heap, then KSI_RequestHandle_perform on a one-element response file with
  *       the k-th allocation failing; everything released; repeat without fault must succeed.
+ *   s4  KSI_HttpClient_new with the k-th allocation failing on a groomed heap (D6, D3).
  * Checked: OK / KSI_OUT_OF_MEMORY, receiver untouched on failure, nothing freed twice, nothing live after release.
  * Exit 1 when the real code misbehaves. */
 #include "replay/c19_alloc.h"
@@ -18,6 +19,7 @@
 #include <ksi/net_file.h>
 #include <unistd.h>
 #include "impl/net_impl.h"
+#include "impl/net_http_impl.h"
 
 static KSI_CTX *ctx;
 static int reproduced;
@@ -158,10 +160,43 @@ static void s3(void) {
 	printf("s3 done (file client: send %lu allocation points, perform %lu)\n", N, M);
 }
 
+/* s4: KSI_HttpClient_new, k-th allocation failing, heap groomed with a client image whose three endpoint fields point to
+ * fake endpoints with a trap destructor (D6: KSI_AbstractNetworkClient_new releases a client whose endpoint fields were
+ * never written); a successful return although an allocation failed is checked for a missing MIME type (D3). */
+static int ep_hit[3];
+static void trap_ep(void *p) { *(int *)p = 1; }
+static void s4(void) {
+	unsigned long k, N = 0; int res, i; unsigned mark; KSI_NetworkClient *c; KSI_NetEndpoint *fake[3]; struct KSI_NetworkClient_st *b[6];
+	for (k = 0; k == 0 || k <= N; k++) {
+		c = NULL;
+		for (i = 0; i < 3; i++) { fake[i] = __libc_malloc(sizeof(KSI_NetEndpoint)); memset(fake[i], 0, sizeof(KSI_NetEndpoint)); ep_hit[i] = 0; fake[i]->implCtx = &ep_hit[i]; fake[i]->implCtx_free = trap_ep; }
+		for (i = 0; i < 6; i++) { b[i] = __libc_malloc(sizeof(*b[i])); memset(b[i], 0, sizeof(*b[i])); b[i]->aggregator = fake[0]; b[i]->extender = fake[1]; b[i]->publicationsFile = fake[2]; }
+		for (i = 5; i >= 0; i--) __libc_free(b[i]);
+		ra_reset(); mark = ra_mark(); ra_begin(k);
+		res = KSI_HttpClient_new(ctx, &c);
+		if (k == 0) N = ra_serial;
+		ra_fail_at = 0;
+		if (ep_hit[0] || ep_hit[1] || ep_hit[2]) REPRO("KSI_HttpClient_new, allocation %lu of %lu failing: KSI_AbstractNetworkClient_new released the client with UNINITIALISED endpoint fields (stale endpoints destroyed: %d %d %d) [net.c:1189-1196 -> cleanup -> KSI_NetworkClient_free]", k, N, ep_hit[0], ep_hit[1], ep_hit[2]);
+		for (i = 0; i < 3; i++) if (!ep_hit[i]) __libc_free(fake[i]);
+		if (k == 0 && res != KSI_OK) { ra_end(); printf("s4: fault-free KSI_HttpClient_new fails 0x%x (skipped)\n", res); return; }
+		if (k > 0 && res != KSI_OK && res != KSI_OUT_OF_MEMORY) REPRO("KSI_HttpClient_new, allocation %lu of %lu failing: returns 0x%x", k, N, res);
+		if (res != KSI_OK && c != NULL) REPRO("KSI_HttpClient_new failed but wrote the receiver");
+		if (res == KSI_OK && k > 0 && ra_failed) {
+			KSI_HttpClient *h = c->impl;
+			if (h->mimeType == NULL || h->agentName == NULL) REPRO("KSI_HttpClient_new, allocation %lu of %lu failing: returns KSI_OK with %s missing - the failed copy is ignored [net_http.c:360 result of setStringParam not assigned to res]", k, N, h->mimeType == NULL ? "the MIME type" : "the agent name");
+		}
+		if (c != NULL) KSI_NetworkClient_free(c);
+		if (ra_double_free) REPRO("KSI_HttpClient_new, allocation %lu of %lu failing: %lu block(s) freed twice", k, N, ra_double_free);
+		if (ra_live_since(mark)) REPRO("KSI_HttpClient_new, allocation %lu of %lu failing: %lu block(s) leaked", k, N, ra_live_since(mark));
+		ra_end();
+	}
+	printf("s4 done (HTTP client constructor, %lu allocation points)\n", N);
+}
+
 int main(int argc, char **argv) {
 	rp_init(argc, argv); setvbuf(stdout, NULL, _IONBF, 0);
 	if (KSI_CTX_new(&ctx) != KSI_OK) { printf("no context\n"); return 0; }
-	s1(); s2(); s3();
+	s1(); s2(); s3(); s4();
 	if (!reproduced) printf("every single fault handled cleanly\n");
 	return reproduced ? 1 : 0;
 }
